@@ -1437,6 +1437,57 @@ example :
 /-- the constant fed to `K` reaches the one-node model as an initializer, by digest -/
 example : (singleton (topkStep.call flowEnv0)).inits = [("K", "k=2")] := by decide
 
+/-! ### Mini-round - the types of the Vars of a flow are the per-call judgement's -/
+
+/-- **flow_old_vars_untouched** (a Var's type and value are set once): whatever calls follow - of any
+    operators, accepted or rejected, with any backend answers - no Var that existed before them is changed. -/
+theorem flow_old_vars_untouched (Infer : InferFn) : ∀ (steps : List Step) (st : Env × Nat) (v : Nat),
+    v < st.2 → (runFlow Infer st steps).1.1 v = st.1 v
+  | [], _, _, _ => rfl
+  | s :: ss, st, v, hv => by
+    simp only [runFlow]
+    have hn : v < (stepEnv Infer st s).1.2 := by
+      simp only [stepEnv, stepOut_next]; omega
+    rw [flow_old_vars_untouched Infer ss _ v hn]
+    exact stepOut_old st s _ _ v hv
+
+theorem stepOut_new_ty (st : Env × Nat) (s : Step) (c : Call) (tys : List (String × Option Ty))
+    (i : Nat) (hi : i < tys.length) :
+    ((stepOut st s c (.ok tys)).1 (st.2 + i)).ty = (tys[i]).2 := by
+  simp only [stepOut]
+  have : st.2 ≤ st.2 + i ∧ st.2 + i < st.2 + (List.map (attachOne (s.backend c tys)) tys).length := by
+    simp; omega
+  simp only [this, and_self, if_true, Nat.add_sub_cancel_left]
+  rw [List.getD_eq_getElem?_getD, List.getElem?_map, List.getElem?_eq_getElem hi]
+  simp [attachOne_ty]
+
+/-- **flow_var_type_is_judgement** (history lift of the per-call statement): in ANY flow `pre ++ s :: post`,
+    if the call `s` - taken as the Vars stand after `pre` - is answered `.ok tys` by `construct` (hence, by
+    `eager_agrees`, `stripUnk` of the judgement's types), then at the END of the whole flow the i-th output Var
+    created by that call carries exactly `tys[i]`: later calls, the attached values and the backends never
+    touch it. -/
+theorem flow_var_type_is_judgement (Infer : InferFn) (pre post : List Step) (s : Step) (st : Env × Nat)
+    (tys : List (String × Option Ty))
+    (hc : construct Infer (s.call (runFlow Infer st pre).1.1) = .ok tys) (i : Nat) (hi : i < tys.length) :
+    ((runFlow Infer st (pre ++ s :: post)).1.1 ((runFlow Infer st pre).1.2 + i)).ty = (tys[i]).2 := by
+  rw [runFlow_append]
+  simp only [runFlow]
+  have hn : (runFlow Infer st pre).1.2 + i < (stepEnv Infer (runFlow Infer st pre).1 s).1.2 := by
+    simp only [stepEnv, stepOut_next, hc]; omega
+  rw [flow_old_vars_untouched Infer post _ _ hn]
+  simp only [stepEnv, hc]
+  exact stepOut_new_ty _ s _ tys i hi
+
+/-- a rejected call creates no Var and changes none -/
+theorem flow_rejected_step_noop (Infer : InferFn) (s : Step) (st : Env × Nat) (e : Err)
+    (hc : construct Infer (s.call st.1) = .error e) : (stepEnv Infer st s).1 = st := by
+  simp [stepEnv, hc, stepOut]
+
+example : ((runFlow topkInfer (flowEnv0, 10) [topkStep, addStep]).1.1 11).ty
+    = some (.tensor 7 (some [.const 2, .unk])) := by decide
+example : (runFlow topkInfer (flowEnv0, 10) [topkStep, addStep]).1.1 1 = flowEnv0 1 :=
+  flow_old_vars_untouched topkInfer _ _ 1 (by decide)
+
 section ML
 open C06M MLOnnx
 
